@@ -29,6 +29,15 @@ def chain_grammars(seed, n):
             if key not in seen:
                 seen.add(key)
                 out.append(json.loads(key))
+    # two alternatives of one non-terminal that end in the same state (S -> t A | A ; A -> u | v): reduce/reduce within one non-terminal
+    strs = [list(t) for k in (1, 2) for t in itertools.product("ab", repeat=k)]
+    for t in "ab":
+        for u, v in itertools.combinations(strs, 2):
+            rules = [{"l": "S", "r": [t, "A"]}, {"l": "S", "r": ["A"]}, {"l": "A", "r": u}, {"l": "A", "r": v}]
+            key = json.dumps(sorted(rules, key=json.dumps), sort_keys=True)
+            if key not in seen:
+                seen.add(key)
+                out.append(json.loads(key))
     n += len(out)
     while len(out) < n:
         rules = []
@@ -155,8 +164,9 @@ def run(chk):
         act_first = {n: sorted(r["first"][n]) for n in c["first"]}
         if exp_first != act_first:
             problems.append("FIRST sets: specification %s, Grammar::first_sets %s" % (exp_first, act_first))
-        if c["amb"] and not r["full"]["conflict"]:
-            problems.append("ambiguous grammar (two derivation trees for one string) but no conflict reported")
+        for mode in ("full", "pre"):
+            if c["amb"] and not r[mode]["conflict"]:
+                problems.append("ambiguous grammar (two derivation trees for one string) but no conflict reported in %s mode" % mode)
         if problems:
             chk.violation("c13:%s" % json.dumps(g, sort_keys=True), "grammar %s: %s" % (g, "; ".join(problems)), {"grammar": g, "problems": problems})
     chk.cov["traces_validated_against_impl"] = nruns
